@@ -30,29 +30,29 @@ type Tuple struct {
 
 type Stats struct {
 	Runs, Calls, OkCalls, ErrCalls, PanicCalls uint64
-	Aborted                                     uint64 // F3: calls failing with a run-time error
-	StaticErr                                   uint64
-	Steps, MaxSteps                             uint64
-	Switches                                    uint64 // F1 preemptions (excluding task start/finish)
-	MapServed, MapReord                         uint64 // F2
-	GCs                                         uint64 // F6
-	AliasResults                                uint64 // probe: result aliases input or literal
-	SpareCapDocs                                uint64 // F5
-	SharedDocCalls                              uint64
-	ExprStateChanged                            uint64 // probe
-	Feeds, Mutates                              uint64
-	NonNull                                     uint64
-	Unsafe, Strict, Enum, MultiFault            uint64 // C15 classes
-	Compared                                    uint64 // C15 cross-policy comparisons made
-	Blocks                                      uint64
-	Cold                                        uint64 // F4
-	Schedules                                   map[string]uint64
-	SwitchHashes                                map[uint64]struct{}
-	SitePairs                                   map[[2]int32]struct{}
-	PreemptSites                                map[int32]struct{}
-	Texts                                       map[uint64]struct{}
-	NontrivTexts                                map[uint64]struct{}
-	TraceDigest                                 uint64 // xor of per-run digests (determinism self-check)
+	Aborted                                    uint64 // F3: calls failing with a run-time error
+	StaticErr                                  uint64
+	Steps, MaxSteps                            uint64
+	Switches                                   uint64 // F1 preemptions (excluding task start/finish)
+	MapServed, MapReord                        uint64 // F2
+	GCs                                        uint64 // F6
+	AliasResults                               uint64 // probe: result aliases input or literal
+	SpareCapDocs                               uint64 // F5
+	SharedDocCalls                             uint64
+	ExprStateChanged                           uint64 // probe
+	Feeds, Mutates                             uint64
+	NonNull                                    uint64
+	Unsafe, Strict, Enum, MultiFault           uint64 // C15 classes
+	Compared                                   uint64 // C15 cross-policy comparisons made
+	Blocks                                     uint64
+	Cold                                       uint64 // F4
+	Schedules                                  map[string]uint64
+	SwitchHashes                               map[uint64]struct{}
+	SitePairs                                  map[[2]int32]struct{}
+	PreemptSites                               map[int32]struct{}
+	Texts                                      map[uint64]struct{}
+	NontrivTexts                               map[uint64]struct{}
+	TraceDigest                                uint64 // xor of per-run digests (determinism self-check)
 }
 
 func newStats() *Stats {
@@ -144,7 +144,7 @@ func schedName(s simrt.Schedule) string {
 
 // explicitOf converts the decisions taken in a run into an explicit schedule.
 func explicitOf(res simrt.Result, orig simrt.Schedule) simrt.Schedule {
-	out := simrt.Schedule{Kind: simrt.StratExplicit, GCSteps: orig.GCSteps}
+	out := simrt.Schedule{Kind: simrt.StratExplicit, GCSteps: orig.GCSteps, Seed: orig.Seed}
 	for i, sw := range res.Switches {
 		if i == 0 && sw.From < 0 {
 			out.First = int(sw.To)
